@@ -505,22 +505,3 @@ fn c07_write_to_buffer_elements_half() {
     kani::cover!(true);
     core::mem::forget((mdl, w));
 }
-
-#[kani::proof]
-#[kani::unwind(30)]
-fn zz_probe_cursor_vec_gap() {
-    use std::io::Write;
-    let mut v: Vec<u8> = Vec::new();
-    let x: [u8; 3] = kani::any();
-    {
-        let mut c = Cursor::new(&mut v);
-        c.write_all(&x).unwrap();
-        c.seek(SeekFrom::Start(10)).unwrap();
-        c.write_all(&[4]).unwrap();
-        c.seek(SeekFrom::Current(5)).unwrap();
-        c.write_all(&x).unwrap();
-    }
-    assert_eq!(v.len(), 19);
-    assert_eq!(v[5], 0);
-    kani::cover!(true);
-}
